@@ -74,6 +74,8 @@ func pacSigType(etype int) (uint32, int, bool) {
 	switch etype {
 	case rcrypto.RC4:
 		return 0xffffff76, 16, true // KERB_CHECKSUM_HMAC_MD5 (-138)
+	case rcrypto.DES3:
+		return 12, 20, true // hmac-sha1-des3-kd: what a KDC signs with for a des3 service key
 	case rcrypto.AES128:
 		return 15, 12, true
 	case rcrypto.AES256:
